@@ -54,6 +54,9 @@ func (s *Scheme) SetStoredData(d []byte) {
 }
 
 func (s *Scheme) HandleMessage(msg *IncMessage) {
+	// Messages may arrive before the first KeyGen or Sign initialized the handler tables
+	s.setupOnce.Do(s.setup)
+
 	switch msg.MsgType {
 	case uint8(MsgTypeSync):
 		s.handleSync(msg)
